@@ -3,7 +3,7 @@
 
 use std::{
     collections::{BTreeMap, BTreeSet},
-    sync::{Arc, OnceLock},
+    sync::Arc,
 };
 
 use serde_json::json;
@@ -25,8 +25,11 @@ use crate::values::Value;
 use crate::worldcase::first_line;
 
 fn meta_schema() -> &'static Schema {
-    static S: OnceLock<Schema> = OnceLock::new();
-    S.get_or_init(|| Schema::parse(SchemaAdapter::schema_text()).expect("HARNESS: meta schema does not parse"))
+    // per thread, see frontend::repo_corpus
+    thread_local! {
+        static S: &'static Schema = Box::leak(Box::new(Schema::parse(SchemaAdapter::schema_text()).expect("HARNESS: meta schema does not parse")));
+    }
+    S.with(|s| *s)
 }
 
 type Fact = BTreeMap<String, String>;
@@ -375,7 +378,7 @@ pub fn c20(ctx: &CheckCtx) -> i32 {
          parameter with a non-null default; distinct by SDL hash.",
     );
     report.assume("implementer is read as: the strict subtypes of an interface, empty for object types (the schema's own doc text)");
-    let cases = ctx.cases(10_000, 300_000);
+    let cases = ctx.cases(30_000, 300_000);
     let res = search(ctx, "c20", cases, 32, 400, c20_case);
     report.absorb(res, &|b| {
         let doc = gen_schema(&mut Choices::new(b), &SchemaGenConfig { docs: true, ..SchemaGenConfig::default() });
